@@ -165,7 +165,56 @@ theorem gate_code_degraded_retriable : retriable (backpressureCode .degraded) = 
 "retriable error" clause in this state (existing tests pin the code; recorded as a known finding). -/
 theorem gate_code_unavailable_not_retriable : retriable (backpressureCode .unavailable) = false := by decide
 
+/-- (c5) Within one multi-partition produce the gate is evaluated per partition against the CURRENT rating: every
+partition that is acknowledged (code 0) or even appended saw the rating `healthy` at its own gate evaluation — for every
+rating function and every pattern of upload failures during the request. -/
+theorem ack_saw_healthy (rating : List Bool → HState) (hist parts : List Bool) :
+    ∀ o ∈ produceLoop rating hist parts, (o.code = 0 ∨ o.appended = true) → o.sawState = .healthy := by
+  induction parts generalizing hist with
+  | nil => simp [produceLoop]
+  | cons f rest ih =>
+    intro o ho hc
+    unfold produceLoop at ho
+    by_cases hst : rating hist = .healthy
+    · simp only [hst, if_true, List.mem_cons] at ho
+      rcases ho with rfl | ho
+      · rfl
+      · exact ih (hist ++ [f]) o ho hc
+    · simp only [hst, if_false, List.mem_cons] at ho
+      rcases ho with rfl | ho
+      · rcases hc with hc | hc
+        · simp only at hc
+          cases hr : rating hist <;> simp_all [backpressureCode]
+        · simp at hc
+      · exact ih hist o ho hc
+
+/-- … and once the rating has left `healthy`, no later partition of the same request is appended. -/
+theorem unhealthy_rest_rejected (rating : List Bool → HState) (hist parts : List Bool)
+    (h : rating hist ≠ .healthy) : ∀ o ∈ produceLoop rating hist parts, o.appended = false ∧ o.code ≠ 0 := by
+  induction parts with
+  | nil => simp [produceLoop]
+  | cons f rest ih =>
+    intro o ho
+    unfold produceLoop at ho
+    have h' : ¬ (rating hist = .healthy) := h
+    simp only [h', if_false, List.mem_cons] at ho
+    rcases ho with rfl | ho
+    · refine ⟨rfl, ?_⟩
+      cases hr : rating hist <;> simp_all [backpressureCode]
+    · exact ih o ho
+
+/-- (c6) Reading the rating once per request violates this: with "any failure ⇒ unavailable", a failing first partition
+is followed by an acknowledged, appended second partition although the rating is already unavailable. -/
+theorem once_per_request_violates :
+    ∃ (rating : List Bool → HState) (parts : List Bool),
+      ∃ o ∈ produceLoopOnce rating [] parts, o.code = 0 ∧ o.appended = true ∧ o.sawState = .unavailable :=
+  ⟨fun h => if h.any id then .unavailable else .healthy, [true, false],
+   ⟨0, true, .unavailable⟩, by decide, rfl, rfl, rfl⟩
+
 /-! non-vacuity -/
+example : (produceLoop (fun h => if h.any id then .unavailable else .healthy) [] [false, true, false]).map (fun o => (o.code, o.appended))
+    = [(0, true), (-1, true), (-1, false)] := by decide
+
 example : (rate { window := 60000, latWarn := 500, latCrit := 3000, errWarnNum := 1, errWarnDen := 5, errCritNum := 3, errCritDen := 5, maxSamples := 512 } 100 1 5).rank
     ≤ (rate { window := 60000, latWarn := 500, latCrit := 3000, errWarnNum := 1, errWarnDen := 5, errCritNum := 3, errCritDen := 5, maxSamples := 512 } 100 3 5).rank := by decide
 example : rate { window := 60000, latWarn := 500, latCrit := 3000, errWarnNum := 1, errWarnDen := 5, errCritNum := 3, errCritDen := 5, maxSamples := 512 } 100 1 5 = .degraded := by decide
